@@ -34,8 +34,9 @@ class _Gate(Contract):
         out = []
         explicit = isinstance(exc.node, _ast.Raise)
         if explicit:
-            # a rejection by this method itself happens before any state change
-            out.append(("rejected-before-any-state-change", len(mutations(eng)) == 0, ("C15", "C16")))
+            # a rejection by this method itself happens before any state change (and before delegating to the writer)
+            inner = [e for e in eng.trace if e.kind in ("call", "contract-call") and str(e.name).endswith(self.inner)]
+            out.append(("rejected-before-any-state-change", len(mutations(eng)) == 0 and len(inner) == 0, ("C15", "C16")))
         if exc.cls == "ValueError" and explicit:
             checks = [e for e in eng.trace if e.kind == "pure" and e.name.endswith("check_archive_path")]
             out.append(("rejects-only-bad-names", Or(*[Not(truthy(e.result)) for e in checks]) if checks else True, ("C16",)))
